@@ -483,6 +483,9 @@ def part_kwargs(kwname, Asub_cls):
     raise KeyError(kwname)
 
 
+SOE_PRELUDES = ['none', 'bigger', 'smaller']
+
+
 def exec_soe(case):
     import pymoto as pym
     acc = Acc(case)
@@ -539,8 +542,10 @@ def exec_soe(case):
             for shape in axes.get('shape', lm.RHS_SHAPES):
                 bf = lm.rhs(len(f_idx), shape, cplx, t)
                 xp = lm.rhs(len(p_idx), shape, cplx, t, off=433)
-                for kwname in axes.get('kw', SOE_KW):
-                    point = {'given': given, 'order': order, 'shape': shape, 'kw': kwname}
+                for kwname, prelude in [(k_, p_) for k_ in axes.get('kw', SOE_KW) for p_ in SOE_PRELUDES]:
+                    if prelude != 'none' and (kwname != axes.get('kw', SOE_KW)[0] or order != axes.get('order', ORDERS)[0]):
+                        continue
+                    point = {'given': given, 'order': order, 'shape': shape, 'kw': kwname, 'prelude': prelude}
                     if not matches(only, **point):
                         continue
                     kw, counter = part_kwargs(kwname, cls_ff)
@@ -560,18 +565,33 @@ def exec_soe(case):
                             tag = type(e).__name__
                         return {'skipped': 'documented non-support: real sparse matrix with complex right-hand side',
                                 'outcome': f'real-sparse/complex-data: {tag}'}
+                    if prelude != 'none':
+                        # a first response() that is rejected (system matrix of the wrong size), then the valid input
+                        nbad = n + 2 if prelude == 'bigger' else max(n - 1, 1)
+                        sA.state = store(np.eye(nbad) * 2.0, storage)
+                        try:
+                            m.response()
+                            acc.observed.append(f'SystemOfEquations accepts a {nbad}x{nbad} matrix for {n} dofs')
+                            continue
+                        except Exception:  # noqa
+                            pass
+                        sA.state = store(A, storage)
                     acc.points += 1
                     acc.keys.append(f"soe|{case['mat']}|{n}|{t}|{storage}|{case['dt']}|{f_set}|{given}|{order}|{shape}"
-                                    f"|{kwname}")
+                                    f"|{kwname}|{prelude}")
                     acc.nontrivial += coupled
-                    run_soe_point(acc, m, (sA, sbf, sxp), A, f_idx, p_idx, bf, xp, symlabel, point, counter, kw)
+                    run_soe_point(acc, m, (sA, sbf, sxp), A, f_idx, p_idx, bf, xp, symlabel, point, counter, kw,
+                                  prelude=prelude)
     return acc.result()
 
 
-def run_soe_point(acc, m, sigs, A, f_idx, p_idx, bf, xp, symlabel, point, counter, kw):
+def run_soe_point(acc, m, sigs, A, f_idx, p_idx, bf, xp, symlabel, point, counter, kw, prelude='none'):
     n = A.shape[0]
     names = ('A', 'b_f', 'x_p')
     base = {'module': 'SystemOfEquations'}
+    if prelude != 'none':
+        base['after'] = 'rejected_call'
+        counter = None
     first = None
     changed = None
     for step in ('first', 'repeat'):
